@@ -7,7 +7,8 @@
 From Coq Require Import ZArith List Lia.
 From PCB Require Import lib.Result lib.PyInt gen.Gen_arrays model.Arrays model.VarMem.
 From PCB Require Import proofs.Arrays_index_proofs proofs.Arrays_proofs proofs.VarMem_proofs
-  proofs.VarMem_peek_proofs proofs.VarMem_disjoint_proofs proofs.VarMem_history_proofs.
+  proofs.VarMem_peek_proofs proofs.VarMem_disjoint_proofs proofs.VarMem_history_proofs
+  proofs.VarMem_area_proofs.
 Import ListNotations.
 Open Scope Z_scope.
 
@@ -63,6 +64,17 @@ Theorem C11_peek_array : forall st limit n a idx i, VInv st -> lookup (a_list (v
     peek st limit (p + i) = Some (Ok (nth (Z.to_nat i) (elem_of (base_of (v_arr st)) a idx) 0)).
 Proof. exact peek_array. Qed.
 Print Assumptions C11_peek_array.
+
+(* EVERY byte of the variable area is characterised: area_image st lays out, record after record, the
+   scalar records (type size, name bytes as get_name_in_memory gives them, value bytes) and then the array
+   records (type size and name bytes, size word = bytes that follow it, rank byte, one word per dimension with
+   the number of elements, element bytes); PEEK of any address in [var_start, var_current + arrays.current)
+   returns the byte the layout assigns to it *)
+Theorem C11_peek_area : forall st limit i, VInv st -> 0 <= i < v_scur st + a_cur (v_arr st) ->
+  length (area_image st) = Z.to_nat (v_scur st + a_cur (v_arr st)) /\
+  peek st limit (v_start st + i) = Some (Ok (nth (Z.to_nat i) (area_image st) 0)).
+Proof. intros st limit i V H. split; [exact (area_image_length st V) | exact (peek_area st limit i V H)]. Qed.
+Print Assumptions C11_peek_area.
 
 (* VARPTR$ = type size, then the address little-endian *)
 Theorem C11_varptr_str : forall st limit n idx st1 p, varptr_ st limit n idx = (st1, Ok p) ->
